@@ -26,6 +26,9 @@ def _prop(pid):
 def _worker(item):
     """item = (pid, cfg, mutate_key, mutate, opts)"""
     from sx import runner
+    if not _CTX:
+        import faulthandler, signal as _sig
+        faulthandler.register(_sig.SIGUSR1, all_threads=True)      # kill -USR1 <worker> prints where it is, even inside the solver
     pid, cfg, mkey, mutate, opts = item
     try:
         key = (mkey,)
